@@ -16,7 +16,8 @@ def _line(b):
 
 
 def corpus():
-    return [_line(b) for b in boundary_bundles()]
+    # + sizes the model cannot evaluate (65536+ array elements, blocks beyond 64 KiB): implementation against the reference encoder
+    return [_line(b) for b in boundary_bundles()] + genb.BIG_CASES
 
 
 def cases(rng, tier):
@@ -24,6 +25,8 @@ def cases(rng, tier):
 
 
 def oracle(line, out, mode):
+    if line.startswith("RTBIG "):
+        return genb.judge_rtbig(line, out)
     b = genb.parse_bundle_line(line[5:])
     ref, _ = genb.ref_bundle(b)
     if out != "OK " + xhex(ref):
@@ -32,7 +35,7 @@ def oracle(line, out, mode):
 
 
 def same(line, io, mo):
-    return False
+    return line.startswith("RTBIG ")     # implementation only (the model prints NA); judged by the oracle against the reference encoder
 
 
 classify = __import__("props.c01", fromlist=["x"]).classify
